@@ -75,12 +75,14 @@ PROPS['C15']['explanation'] += (' CONCURRENT: 2-3 racing reverts of one transact
 PROPS['C15']['trusted'] = PROPS['C15']['trusted'] + CONC_TRUST
 
 PROPS['C16']['ties'].append(sched_tie('C16', 'c16', 100, 3000))
-PROPS['C16']['theorems'] += ['C16_conc_ids_unique', 'C16_conc_ids_unique_from', 'C16_conc_log_order_locked', 'C16_conc_log_order_locked_from', 'C16_conc_tx_order_refuted', 'C16_conc_log_order_unlocked_refuted']
+PROPS['C16']['theorems'] += ['C16_conc_ids_unique', 'C16_conc_ids_unique_from', 'C16_conc_log_order_locked', 'C16_conc_log_order_locked_from', 'C16_conc_nonoverlapping_order', 'C16_conc_tx_order_refuted', 'C16_conc_log_order_unlocked_refuted']
 PROPS['C16']['explanation'] += (' CONCURRENT: C16_conc_ids_unique -- for ALL schedules of any number of writers (induction over the schedule) transaction ids and log ids of committed and in-flight rows are '
                                'pairwise distinct and below the sequence. "A later COMMIT never receives a smaller id" is REFUTED for transaction ids even with HASH_LOGS=SYNC (C16_conc_tx_order_refuted: '
                                'InsertTransaction draws its id before InsertLog takes the advisory lock) and for log ids without the lock (C16_conc_log_order_unlocked_refuted); both witnesses are reproduced on '
                                'the real stack (known findings [c16-txid-commit-order], [c16-logid-commit-order-nolock]). PROVED for ALL schedules (C16_conc_log_order_locked): with HASH_LOGS=SYNC (advisory lock taken '
-                               'before nextval and held until COMMIT) the log ids published by successive COMMITs are strictly increasing.' + _sched_note)
+                               'before nextval and held until COMMIT) the log ids published by successive COMMITs are strictly increasing; C16_conc_nonoverlapping_order: requests that do not overlap get increasing '
+                               'transaction ids (nextval is monotone in call order) -- monitor [c16-nonoverlapping-order] on every schedule incl. scenario c16-nonoverlap (a third request issued after two overlapping '
+                               'ones answered, reusing one of their pooled connections); pgsem implements CREATE SEQUENCE ... CACHE n per session, so a cached sequence (seeded N-C16) is caught.' + _sched_note)
 PROPS['C16']['trusted'] = PROPS['C16']['trusted'] + CONC_TRUST
 
 # C09, concurrent part: the same schedule exploration with HASH_LOGS=SYNC; the chain monitor (every stored hash chains from the
